@@ -212,7 +212,7 @@ def run_translators(names):
     """run translators/<name>.py /repo ; returns (all_ok, messages)"""
     ok, msgs = True, []
     for n in names:
-        gen_name = {"effectors": "EffectorsGen.v", "rwlock": "RWLockGen.v", "synced": "SyncedGen.v", "asyncdiff": "AsyncGen.v", "policy": "PolicyGen.v", "internal": "InternalGen.v", "enforce": "EnforceGen.v", "loadline": "LoadLineGen.v", "filterline": "FilterGen.v", "haslink": "HasLinkGen.v", "rolelinks": "RoleLinksGen.v", "adapters": "AdaptersGen.v", "loadpolicy": "LoadPolicyGen.v", "keymatch": "KeyMatchGen.v", "condhaslink": "CondHasLinkGen.v", "filtered": "FilteredGen.v", "rbacapi": "RbacApiGen.v", "grouping": "GroupingGen.v", "fastenforce": "FastGen.v", "rangematch": "RangeMatchGen.v", "globmatch": "GlobMatchGen.v", "implroles": "ImplRolesGen.v", "implusers": "ImplUsersGen.v", "implresource": "ImplResourceGen.v", "implperms": "ImplPermsGen.v", "polwrap": "PolWrapGen.v", "fastcontainer": "FastContGen.v"}.get(n)
+        gen_name = {"effectors": "EffectorsGen.v", "rwlock": "RWLockGen.v", "synced": "SyncedGen.v", "asyncdiff": "AsyncGen.v", "policy": "PolicyGen.v", "internal": "InternalGen.v", "enforce": "EnforceGen.v", "loadline": "LoadLineGen.v", "filterline": "FilterGen.v", "haslink": "HasLinkGen.v", "rolelinks": "RoleLinksGen.v", "adapters": "AdaptersGen.v", "loadpolicy": "LoadPolicyGen.v", "keymatch": "KeyMatchGen.v", "condhaslink": "CondHasLinkGen.v", "filtered": "FilteredGen.v", "rbacapi": "RbacApiGen.v", "grouping": "GroupingGen.v", "fastenforce": "FastGen.v", "rangematch": "RangeMatchGen.v", "globmatch": "GlobMatchGen.v", "implroles": "ImplRolesGen.v", "implusers": "ImplUsersGen.v", "implresource": "ImplResourceGen.v", "implperms": "ImplPermsGen.v", "polwrap": "PolWrapGen.v", "fastcontainer": "FastContGen.v", "remcomments": "CmtGen.v"}.get(n)
         extra = [str(COQ / "gen" / gen_name)] if (gen_name and os.environ.get("VERIF_COQ_DIR")) else []
         rc, out = sh([PY, str(ROOT / "translators" / f"{n}.py"), str(REPO)] + extra, timeout=300)
         if rc != 0:
